@@ -456,6 +456,11 @@ func typeInvariant(t types.Type, v Val, allocBound *Term) []*Term {
 		if !x.Id.IsConst() {
 			out = append(out, Ge(x.Id, Zero))
 		}
+	case VIface:
+		// the nil interface value carries no data word
+		if !x.Tag.IsConst() {
+			out = append(out, Ge(x.Tag, Zero), Implies(Eq(x.Tag, Zero), Eq(x.Data, Zero)))
+		}
 	case VMap:
 		if !x.Ref.IsConst() {
 			out = append(out, Ge(x.Ref, Zero))
